@@ -12,3 +12,14 @@ package shared
 //@   opt pure
 //@   ensures !fp.isNaN(x) && !fp.isInf(x) && !fp.isNeg(x) && same(y, 4294967296.0) ==>
 //@           same(result, fp.geq(x, 0x1p85) ? 0.0 : bv.to_fp(bv.extract(31, 0, fp.to_ubv(96, x))))
+
+// math.Pow: the special cases documented in package math (in the precedence order of its implementation).
+//@ func math.Pow
+//@   trusted
+//@   opt pure
+//@   ensures fp.isZero(y) || fp.eq(x, 1.0) ==> same(result, 1.0)
+//@   ensures !fp.isZero(y) && !fp.eq(x, 1.0) && (fp.isNaN(x) || fp.isNaN(y)) ==> fp.isNaN(result)
+//@   ensures fp.isInf(y) && fp.eq(x, -1.0) ==> same(result, 1.0)
+//@   ensures fp.isInf(y) && !fp.isNaN(x) && !fp.isZero(x) && !fp.eq(fp.abs(x), 1.0) ==>
+//@           same(result, (fp.gt(fp.abs(x), 1.0) == fp.isPos(y)) ? fp.inf() : 0.0)
+//@   ensures fp.isInf(y) && fp.isZero(x) ==> same(result, fp.isPos(y) ? 0.0 : fp.inf())
